@@ -77,12 +77,16 @@ def compdb(repo=REPO):
 
 
 def run_lvx(unit, flags, outdir, repo=REPO):
+    """runs the extractor into a file private to this process/thread (checks may run concurrently and all write <outdir>/<unit>.json), then publishes it
+    atomically; returns the path of the complete file"""
+    import threading
     out = os.path.join(outdir, unit + ".json")
+    tmp = "%s.%d.%d.tmp" % (out, os.getpid(), threading.get_ident())
     src = os.path.join(repo, unit + ".c")
-    r = subprocess.run([LVX, out, repo, src, "--"] + flags, stdout=subprocess.PIPE, stderr=subprocess.PIPE)
-    if r.returncode != 0 or not os.path.exists(out):
+    r = subprocess.run([LVX, tmp, repo, src, "--"] + flags, stdout=subprocess.PIPE, stderr=subprocess.PIPE)
+    if r.returncode != 0 or not os.path.exists(tmp):
         raise AnalysisBroken("lvx failed on %s: %s" % (unit, r.stderr.decode()[-1500:]))
-    return out
+    return tmp
 
 
 def extract(units=None, config="build", repo=REPO, db=None):
@@ -103,6 +107,7 @@ def extract(units=None, config="build", repo=REPO, db=None):
     for u, p in paths.items():
         with open(p) as fh:
             facts[u] = json.load(fh)
+        os.replace(p, os.path.join(outdir, u + ".json"))     # kept for inspection (tools/dumpfn.py); never read back by a check
     return facts
 
 
